@@ -11,7 +11,7 @@ type In struct {
 	HTML   string `json:"html"`
 	User   string `json:"user,omitempty"` // user-origin style sheet
 	Engine string `json:"engine,omitempty"`
-	Kind   string `json:"kind"` // "ow-table" | "pair-table" | "deco-table" | "unit-table" | "random"
+	Kind   string `json:"kind"` // "ow-table" | "pair-table" | "deco-table" | "unit-table" | "dim-table" | "random"
 
 	Rules     []Rule `json:"rules"`                // every @page rule, author sheet first (in order), then user sheet
 	RootBreak string `json:"root_break,omitempty"` // break-before of the root element: "", left, right, recto, verso
@@ -65,8 +65,9 @@ type Rule struct {
 
 // Decl is one declaration of a @page rule.  P is one of: size (W,H), margin (1–4 values),
 // margin-top/right/bottom/left, padding (1–4), padding-top/…, counter-reset (page N),
+// width, height (of the page box: one value, a length, a percentage of the sheet or auto),
 // counter-increment (page N), mbox (format id of an @bottom-center content declaration).
-// V are px values; for size, margin* and padding* T may give, value by value, the literal CSS token
+// V are px values; for size, margin*, padding*, width and height T may give, value by value, the literal CSS token
 // written instead ("" = V[i] px): a number with one of the units px pt pc mm cm in Q em %, or auto
 // (margins only).  The reference model parses the token itself (cascade.go: parseTok).
 type Decl struct {
@@ -74,6 +75,18 @@ type Decl struct {
 	V   []int    `json:"v"`
 	T   []string `json:"t,omitempty"`
 	Imp bool     `json:"imp,omitempty"`
+}
+
+// hasDims tells whether some @page rule of the document declares the width or height of the page box.
+func (in *In) hasDims() bool {
+	for _, r := range in.Rules {
+		for _, d := range r.Decls {
+			if d.P == "width" || d.P == "height" {
+				return true
+			}
+		}
+	}
+	return false
 }
 
 // hasUnits tells whether some @page value of the document is not written in px.
